@@ -3,37 +3,56 @@
 From FC Require Import Svc.Model Svc.SeqlockProg Svc.Main Svc.Proofs42 Svc.Proofs41.
 Open Scope N_scope.
 
-(* C42.  [write_prog] / [read_prog] are the step lists translated from seqlock.rs.
-   ONE writer thread performing the calls write(v_1) ... write(v_n) (any n, any values),
-   any number [nr] of reader threads calling read() again and again, data of any number k
-   of words stored/loaded one word per step, and ANY sequentially consistent interleaving
-   [sched] of the threads' atomic steps.  value init writes c = the c-th value of the cell
-   (c = 0: the initial value, c >= 1: the value of the c-th write call).
-   Every return [e] of read() in the execution returned exactly the k words of ONE value
-   (no torn read), and that value had been completely written when read returned. *)
+(* C42.  [write_prog] / [read_prog] are the step lists translated from seqlock.rs (including
+   where the caught panic of the closure is re-raised: WResume).
+   ONE writer thread performing the calls write(f_1) ... write(f_n) (any n), each closure either
+   storing its k words and returning, or PANICKING after having stored j of them (the panic is
+   caught by write, the rest of write runs as the program says, the panic is re-raised to the
+   caller, who survives it and goes on with the next call); any number [nr] of reader threads
+   calling read() again and again; data of any number k of words stored/loaded one word per
+   step; ANY sequentially consistent interleaving [sched] of the threads' atomic steps.
+   value k init writes c = the c-th value of the cell: c = 0 the initial value, c >= 1 what the
+   c-th call left in the cell = all k words of its value, or, for a panicking closure, its j
+   words over the previous value.  DECISION on panicking closures: what an `FnOnce(&mut T)` that
+   panics half-way leaves in the cell is the closure's own (completed) effect; write closes the
+   sequence and publishes it like any value, it is not an intermediate state of the lock
+   protocol, so the statement counts it as the value of that call.  No finding is proposed.
+   Every return [e] of read() returned exactly the k words of ONE such value (never an
+   intermediate state of a call in progress), published when read returned. *)
 Theorem read_returns_complete_value : forall k init writes nr sched e,
-  length init = k -> Forall (fun v => length v = k) writes ->
+  length init = k -> Forall (fun w : wcall => length (fst w) = k) writes ->
   In e (log (run k write_prog read_prog (init_state seq_init init [writes] nr) sched)) ->
   exists c, (c <= e_done e)%nat /\ (e_done e <= length writes)%nat /\
-            e_val e = value init writes c.
+            e_val e = value k init writes c.
 Proof. exact read_complete_all. Qed.
 Print Assumptions read_returns_complete_value.
 
-(* ... and it is not stale: e_c0 e is the number of write calls that had completed when this
-   call of read performed its first load of the sequence counter, e_done e the number
-   completed when it returned; the returned value is the one of write number c with
-   e_c0 e <= c <= e_done e, i.e. the latest write completed before the read began or a later one. *)
+(* ... and it is not stale: e_c0 e = number of write calls that had completed when this call
+   of read performed its first load of the sequence counter, e_done e = the number completed
+   when it returned; the returned value is the one of call number c with
+   e_c0 e <= c <= e_done e, i.e. the latest call completed before the read began or a later one. *)
 Theorem read_not_stale : forall k init writes nr sched e,
-  length init = k -> Forall (fun v => length v = k) writes ->
+  length init = k -> Forall (fun w : wcall => length (fst w) = k) writes ->
   In e (log (run k write_prog read_prog (init_state seq_init init [writes] nr) sched)) ->
-  exists c, (e_c0 e <= c <= e_done e)%nat /\ e_val e = value init writes c.
+  exists c, (e_c0 e <= c <= e_done e)%nat /\ e_val e = value k init writes c.
 Proof. exact read_not_stale_all. Qed.
 Print Assumptions read_not_stale.
 
+(* after any sequence of calls of write, some of which panic: the counter is even (= twice the
+   number of completed calls) whenever no call is in progress, and odd while one is *)
+Theorem counter_even_when_idle : forall k init writes nr sched,
+  length init = k -> Forall (fun w : wcall => length (fst w) = k) writes ->
+  let st := run k write_prog read_prog (init_state seq_init init [writes] nr) sched in
+  exists w, ws st = [w] /\
+            (wpc w = 0%nat -> Svc.Model.seq (sh st) = 2 * N.of_nat (wdone w) /\ N.even (Svc.Model.seq (sh st)) = true) /\
+            (wpc w <> 0%nat -> N.odd (Svc.Model.seq (sh st)) = true).
+Proof. exact idle_even_all. Qed.
+Print Assumptions counter_even_when_idle.
+
 (* the decidable checker evaluated on the implementation's read returns means exactly that *)
-Theorem read_checker_sound : forall init writes e,
-  ev_okb init writes e = true <->
-  exists c, (e_c0 e <= c <= e_done e)%nat /\ e_val e = value init writes c.
+Theorem read_checker_sound : forall k init writes e,
+  ev_okb k init writes e = true <->
+  exists c, (e_c0 e <= c <= e_done e)%nat /\ e_val e = value k init writes c.
 Proof. exact ev_okb_sound. Qed.
 Print Assumptions read_checker_sound.
 
@@ -50,8 +69,8 @@ Print Assumptions macro_step_is_micro_schedule.
 Theorem two_writers_read_returns_complete_value_refuted :
   exists sched e,
     In e (log (run 2 write_prog read_prog
-                   (init_state seq_init [0; 0] [[[1; 1]]; [[2; 2]]] 1) sched)) /\
-    ~ In (e_val e) ([0; 0] :: concat [[[1; 1]]; [[2; 2]]]).
+                   (init_state seq_init [0; 0] two_wqs 1) sched)) /\
+    ~ In (e_val e) ([0; 0] :: map fst (concat two_wqs)).
 Proof. exact two_writers_torn_not_complete. Qed.
 Print Assumptions two_writers_read_returns_complete_value_refuted.
 
